@@ -1,7 +1,7 @@
 (* Props/C09.v — the audited surface for property C09 (container series keep their length and dtype under every
    assignment history).  Statements only; every proof is `exact <lemma>`; Print Assumptions under each.
    NumPy (element casts, dtype inference) is a family of Section variables: every statement holds for EVERY table. *)
-From Coq Require Import ZArith List Bool String.
+From Coq Require Import ZArith List Bool String Ascii.
 Import ListNotations.
 Require Import PyBase Container ContainerFacts ContainerExamples.
 Open Scope string_scope.
@@ -26,7 +26,7 @@ Section C09.
       (forall x, In x (index s) -> assoc x (vars s) <> None) /\
       (forall x v, assoc x (vars s) = Some v -> vshape v = [length (span s)])) /\
      (kind s <> CVC -> incl (names s) (index s))).
-  Proof. exact (fun s => conj (fun H => H) (fun H => H)) s. Qed.
+  Proof. exact (inv_unfolded s). Qed.
 
   Theorem C09_inv_init_container sp st : Inv (init_vc sp st).
   Proof. exact (inv_init_vc sp st). Qed.
@@ -90,13 +90,13 @@ Section C09.
 
   Theorem C09_unknown_name_label_rejected name l value s :
     assoc name (vars s) = None -> name <> "attributes" ->
-    (forall x, assoc (String "_" name) (adict s) <> Some x) ->
+    (forall x, assoc (String "_"%char name) (adict s) <> Some x) ->
     exists e, setitem pycast arrcast infer itemseq_exn (KLabel name l) value s = (s, Raise e) /\ (e = KeyError \/ e = TypeError).
   Proof. exact (unknown_name_label_rejected pycast arrcast infer itemseq_exn name l value s). Qed.
 
   Theorem C09_unknown_name_slice_rejected name a b st value s :
     assoc name (vars s) = None -> name <> "attributes" ->
-    (forall x, assoc (String "_" name) (adict s) <> Some x) ->
+    (forall x, assoc (String "_"%char name) (adict s) <> Some x) ->
     exists e, setitem pycast arrcast infer itemseq_exn (KSlice name a b st) value s = (s, Raise e) /\
               (e = KeyError \/ e = TypeError \/ e = IndexError).
   Proof. exact (unknown_name_slice_rejected pycast arrcast infer itemseq_exn name a b st value s). Qed.
